@@ -10,6 +10,9 @@ package c19
 //	         limit below intrinsic gas, fails in the msg server)
 //	create   Cosmos tx MsgCreateFunToken{from bank denom} (deploys an ERC20)
 //	convert  Cosmos tx MsgConvertCoinToEvm for a coin-born FunToken (mints ERC20)
+//	s2b      MsgEthereumTx calling the FunToken precompile sendToBank for an ERC20-born FunToken
+//	         (ERC20 Transfer log + the precompile's mirrored ABCI-event logs)
+//	conv20   Cosmos tx MsgConvertCoinToEvm for the ERC20-born FunToken (releases escrowed ERC20)
 //
 // Observables per op: tx code, the index attribute of every EventEthereumTx, and
 // (log index, log tx index) of every log of every EventTxLog; per block: whether
@@ -38,7 +41,9 @@ import (
 
 	"github.com/NibiruChain/nibiru/v2/eth"
 	"github.com/NibiruChain/nibiru/v2/x/evm"
+	"github.com/NibiruChain/nibiru/v2/x/evm/embeds"
 	"github.com/NibiruChain/nibiru/v2/x/evm/evmtest"
+	"github.com/NibiruChain/nibiru/v2/x/evm/precompile"
 )
 
 type c19Op struct {
@@ -79,6 +84,7 @@ type c19World struct {
 	accs     []evmtest.EthPrivKeyAcc
 	cosmos   *secp256k1.PrivKey
 	emitter  gethcommon.Address
+	erc20    gethcommon.Address // TestERC20 owned by accs[0], mapped to bank denom erc20/<addr>
 	denoms   []string // coin-born funtokens created so far
 	nextCoin int
 	blocks   int
@@ -118,6 +124,19 @@ func newC19World(t *testing.T) *c19World {
 		t.Fatalf("deploy emitter: %s", r.Log)
 	}
 	w.emitter = crypto.CreateAddress(w.accs[0].EthAddr, 0)
+	// deploy TestERC20 (accs[0] owns the supply) and map it to a bank denom
+	msg, err = c.SignEth(w.accs[0], &evm.EvmTxArgs{Nonce: 1, GasLimit: 3_000_000, GasPrice: big.NewInt(1_000_000_000_000), Input: embeds.SmartContract_TestERC20.Bytecode})
+	if err != nil {
+		t.Fatal(err)
+	}
+	if r := c.DeliverEth(msg); r.Code != 0 {
+		t.Fatalf("deploy TestERC20: %s", r.Log)
+	}
+	w.erc20 = crypto.CreateAddress(w.accs[0].EthAddr, 1)
+	erc := eth.EIP55Addr{Address: w.erc20}
+	if r := c.DeliverCosmos(w.cosmos, 5_000_000, Unibi(1_000_000), &evm.MsgCreateFunToken{FromErc20: &erc, Sender: caddr.String()}); r.Code != 0 {
+		t.Fatalf("create funtoken from erc20: %s", r.Log)
+	}
 	c.EndBlock()
 	return w
 }
@@ -227,6 +246,24 @@ func (w *c19World) runBlock(ops []c19Op) c19BlockObs {
 			if r.Code == 0 {
 				w.denoms = append(w.denoms, d)
 			}
+		case "s2b":
+			caddr := sdk.AccAddress(w.cosmos.PubKey().Address())
+			input, err := embeds.SmartContract_FunToken.ABI.Pack("sendToBank", w.erc20, big.NewInt(int64(5+op.K)), caddr.String())
+			if err != nil {
+				panic(err)
+			}
+			to := precompile.PrecompileAddr_FunToken
+			msg, err := c.SignEth(w.accs[0], &evm.EvmTxArgs{Nonce: w.nonce(0), GasLimit: 2_000_000, GasPrice: price, To: &to, Input: input})
+			if err != nil {
+				panic(err)
+			}
+			r = c.DeliverEth(msg)
+		case "conv20":
+			caddr := sdk.AccAddress(w.cosmos.PubKey().Address())
+			r = c.DeliverCosmos(w.cosmos, 5_000_000, Unibi(1_000_000), &evm.MsgConvertCoinToEvm{
+				Sender: caddr.String(), BankCoin: sdk.NewCoin("erc20/"+w.erc20.Hex(), sdkmath.NewInt(2)),
+				ToEthAddr: eth.EIP55Addr{Address: w.accs[op.Sender%len(w.accs)].EthAddr},
+			})
 		case "convert":
 			caddr := sdk.AccAddress(w.cosmos.PubKey().Address())
 			d := "ucoin_none"
@@ -260,7 +297,11 @@ func genC19Case(r *Rng, canConvert bool) [][]c19Op {
 		n := r.Range(1, 7)
 		var ops []c19Op
 		for i := 0; i < n; i++ {
-			switch r.Pick(6, 2, 3) {
+			switch r.Pick(6, 2, 3, 2, 2) {
+			case 3:
+				ops = append(ops, c19Op{Kind: "s2b", K: r.Intn(4)})
+			case 4:
+				ops = append(ops, c19Op{Kind: "conv20", Sender: r.Intn(3)})
 			case 0:
 				op := c19Op{Kind: "eth", K: r.Pick(2, 3, 2, 1, 1), Sender: r.Intn(3)}
 				switch r.Pick(6, 2, 1, 1) {
@@ -312,6 +353,7 @@ func TestC19(t *testing.T) {
 	// corpus-like fixed openers: the sequences that collided on the pinned tree
 	run([][]c19Op{{{Kind: "eth", K: 1}, {Kind: "create"}, {Kind: "convert"}, {Kind: "eth", K: 2}}})
 	run([][]c19Op{{{Kind: "eth", K: 2}, {Kind: "eth", K: 0}, {Kind: "convert"}, {Kind: "convert"}, {Kind: "eth", K: 1, Revert: true}, {Kind: "eth", K: 3}}})
+	run([][]c19Op{{{Kind: "s2b", K: 1}, {Kind: "eth", K: 1}, {Kind: "conv20"}, {Kind: "s2b", K: 2}, {Kind: "conv20"}, {Kind: "eth", K: 2}}})
 	rng := NewRng(cfg.Seed)
 	for i := 0; i < cfg.N; i++ {
 		run(genC19Case(rng.Fork(), true))
